@@ -175,7 +175,9 @@ func policyClass(p string) string {
 	return "other"
 }
 
-func (d *deciderA) check(res *engine.Result, c cell, verbose bool) {
+// check evaluates one cell against the oracle and returns what was observed (for the comparison between
+// process histories).
+func (d *deciderA) check(res *engine.Result, c cell, verbose bool) (observed string) {
 	admissible, stage, open := refDecision(c)
 	d1, h1, e1 := d.observe(c)
 	d2, h2, e2 := d.observe(c)
@@ -191,6 +193,7 @@ func (d *deciderA) check(res *engine.Result, c cell, verbose bool) {
 	if precedenceMatters(c) {
 		res.NontrivialCase(c.String())
 	}
+	observed = fmt.Sprintf("injectRequired=%s webhook=%s", verdict(d1), h1)
 	if verbose {
 		d.t.Logf("cell %s\n admissible=%v stage=%s open=%v\n injectRequired=%v webhook=%s %s", c, admissible, stage, open, d1, h1, e1)
 	}
@@ -229,22 +232,40 @@ func (d *deciderA) check(res *engine.Result, c cell, verbose bool) {
 	if verdict(d1) != h1 {
 		res.Violate("decision-paths-disagree decided-by="+stage, fmt.Sprintf("injectRequired=%s but the webhook answered %s for the same inputs; cell: %s", verdict(d1), h1, c), c)
 	}
+	return observed
 }
 
 func TestC19a(t *testing.T) {
 	env := engine.GetEnv()
 	res := engine.NewResult("C19", "a-decision")
-	res.Rule = "every cell of hostNetwork x namespace x inject label x inject annotation x neverInjectSelector form (matchLabels / Exists / DoesNotExist / NotIn / unset) x alwaysInjectSelector form x the pod's other labels (incl. no label map and an empty one) x policy (x AdmissionReview version), each evaluated twice through injectRequired and through the real /inject handler with the shipped sidecar template; non-trivial = at least two stages of the cascade have opinions that differ, so the cell exercises the order"
+	res.Rule = "every cell of hostNetwork x namespace x inject label x inject annotation x neverInjectSelector form (matchLabels / Exists / DoesNotExist / NotIn / unset) x alwaysInjectSelector form x the pod's other labels (incl. no label map and an empty one) x policy (x AdmissionReview version), each evaluated twice through injectRequired and through the real /inject handler with the shipped sidecar template, the whole table once in the fresh process and once after the namespace controller (which shares inject.IgnoredNamespaces) has been built and run in the same process; the exported package-level state of pkg/kube/inject must stay as it was; non-trivial = at least two stages of the cascade have opinions that differ, so the cell exercises the order"
 	defer res.Write(t, env)
 	d := &deciderA{t: t, s: loadShipped(t), webhooks: map[string]*webhook{}, configs: map[string]*inject.Config{}}
 	setNative(false)
+
+	globals := injectorGlobals()
+	res.Bounds["injector_globals_at_start"] = globals
 
 	if env.Replay != "" {
 		var c cell
 		if err := engine.ReadReplay(env.Replay, &c); err != nil {
 			t.Fatal(err)
 		}
-		d.check(res, c.normalise(), true)
+		c = c.normalise()
+		if c.History == historyAfter {
+			fresh := c
+			fresh.History = historyFresh
+			before := d.check(res, fresh, true)
+			runCotenants(t)
+			assertGlobalsUnchanged(res, globals, historyAfter, c)
+			if after := d.check(res, c, true); after != before {
+				_, stage, _ := refDecision(c)
+				res.Violate("decision-depends-on-process-history decided-by="+stage+" "+historyAfter,
+					fmt.Sprintf("same cell: %s in a fresh process, %s %s; cell: %s", before, after, historyAfter, c), c)
+			}
+			return
+		}
+		d.check(res, c, true)
 		return
 	}
 	a := alphabetForA(env.Thorough())
@@ -259,20 +280,41 @@ func TestC19a(t *testing.T) {
 		"neverInjectSelector": a.never, "alwaysInjectSelector": a.always, "podLabels": a.podLabels, "policy": a.policies, "admissionReview": a.apis,
 	}
 	res.Bounds["template_sha256"] = d.s.digests["sidecar"]
-	engine.Product(dims, func(ord int64, idx []int) bool {
-		if !env.Mine(ord) {
+	res.Bounds["process_histories"] = []string{historyFresh, historyAfter}
+	// The whole table is evaluated twice: in the fresh process, and again after the istiod components that
+	// share the injector's package-level state have run in this process (history cannot be undone, hence
+	// the order). The oracle is the same both times, and the two observations of a cell must agree.
+	freshObs := map[int64]string{}
+	for _, history := range []string{historyFresh, historyAfter} {
+		if history == historyAfter {
+			runCotenants(t)
+			assertGlobalsUnchanged(res, globals, historyAfter, cell{History: historyAfter, Namespace: "kube-system", NsVia: "pod", Label: absent, Annotation: absent,
+				Never: "unset", Always: "unset", PodLabels: "app", Policy: "enabled", APIVersion: "v1"})
+		}
+		engine.Product(dims, func(ord int64, idx []int) bool {
+			if !env.Mine(ord) {
+				return true
+			}
+			if env.Expired() {
+				res.Cap(fmt.Sprintf("deadline at cell %d/%d (%s)", ord, total, history))
+				return false
+			}
+			c := a.cell(idx)
+			c.History = history
+			obs := d.check(res, c, false)
+			if history == historyFresh {
+				freshObs[ord] = obs
+			} else if was, ok := freshObs[ord]; ok && was != obs {
+				_, stage, _ := refDecision(c)
+				res.Violate("decision-depends-on-process-history decided-by="+stage+" "+history,
+					fmt.Sprintf("same cell: %s in a fresh process, %s %s; cell: %s", was, obs, history, c), c)
+			}
+			if ord%197 == 0 && history == historyFresh {
+				adm, stage, _ := refDecision(c)
+				res.Sample(map[string]any{"cell": c.String(), "decided_by": stage, "admissible_inject": adm[true], "admissible_skip": adm[false]})
+			}
 			return true
-		}
-		if env.Expired() {
-			res.Cap(fmt.Sprintf("deadline at cell %d/%d", ord, total))
-			return false
-		}
-		c := a.cell(idx)
-		d.check(res, c, false)
-		if ord%197 == 0 {
-			adm, stage, _ := refDecision(c)
-			res.Sample(map[string]any{"cell": c.String(), "decided_by": stage, "admissible_inject": adm[true], "admissible_skip": adm[false]})
-		}
-		return true
-	})
+		})
+	}
+	assertGlobalsUnchanged(res, globals, "the whole run", nil)
 }
